@@ -339,3 +339,25 @@ Definition opt_list {A} (o : option A) : list A := match o with Some x => [x] | 
 Definition keys (s : state) : list kp := opt_list (prev s) ++ opt_list (cur s) ++ opt_list (next s).
 Definition honoured (s : state) (i : N) : bool :=
   match lookup i (table s) with Some _ => true | None => false end.
+
+(* ---- the response-processing window ------------------------------------------------------
+   receive.go RoutineHandshake, MessageResponseType: ConsumeMessageResponse and
+   BeginSymmetricSession are two separately locked steps of the handshake worker; other
+   goroutines of the peer (the sequential receiver handling a transport message, a timer calling
+   SendHandshakeInitiation) can run in between.  [step_window s pre k r]: the remote party's
+   answer to the device's k-th newest initiation has been consumed (state ResponseConsumed; the
+   slice's state is untouched by that: the index still names the handshake), the event [pre]
+   (a [Recv]/[Initiate]) is handled INSIDE the window, then the worker goes on.  In the unchanged
+   code the outcome is that of handling [pre] first: if [pre] created a new initiation
+   (CreateMessageInitiation overwrote the handshake: state InitiationCreated, new index, old index
+   deleted) BeginSymmetricSession fails ("invalid state") -- the consumed response now answers
+   the (k+1)-th newest initiation, which [do_respond] refuses -- otherwise the session begins,
+   timersHandshakeComplete clears the receive-side latch AFTER the key is installed (so a latch
+   set inside the window belongs to the old session and is wiped) and the keepalive goes out. *)
+Definition merge_out (a b : out) : out :=
+  mkOut (o_acc b) (o_sent a ++ o_sent b) (o_init a || o_init b) (o_resp a || o_resp b) (o_tun a || o_tun b).
+
+Definition step_window (s : state) (pre : event) (k : nat) (r : N) : state * out :=
+  let '(s1, o1) := step s pre in
+  let '(s2, o2) := step s1 (Respond (if o_init o1 then S k else k) r) in
+  (s2, merge_out o1 o2).
